@@ -59,7 +59,7 @@ def main():
     if os.path.abspath(patch) != os.path.abspath(os.path.join(dst, "patch.diff")):
         shutil.copy(patch, os.path.join(dst, "patch.diff"))
     json.dump(meta, open(os.path.join(dst, "meta.json"), "w"), indent=1, ensure_ascii=False)
-    print(name, "alarms:", sorted(alarms) or "none")
+    print(name, "alarms:", (sorted(alarms) or "none") if meta["patch_applies"] else "PATCH DOES NOT APPLY TO HEAD")
     for k, v in alarms.items():
         for l in v[:3]:
             print("    ", k, l[:260])
